@@ -311,10 +311,14 @@ func (m *Machine) runFrame(fr *frame) {
 				if p == nil {
 					panic(goPanic{msg: "nil pointer dereference (store)"})
 				}
-				if m.race != nil {
+				nv := m.get(fr, x.Val)
+				if m.race != nil && !sameValue(*p, nv) {
+					// (go/ssa lowers `return x` of a named result x into a store of x to
+					// itself, which the compiler does not emit: a store that leaves the cell
+					// unchanged is not counted as a write)
 					m.logAccess(true, p, "store")
 				}
-				*p = copyVal(m.get(fr, x.Val))
+				*p = copyVal(nv)
 			case *ssa.MapUpdate:
 				mp := m.get(fr, x.Map).(*Map)
 				if mp == nil {
@@ -335,6 +339,27 @@ func (m *Machine) runFrame(fr *frame) {
 			panic(fmt.Sprintf("fell off block in %s", fr.fn))
 		}
 	}
+}
+
+// sameValue: identical scalar or the very same reference.
+func sameValue(a, b Value) bool {
+	switch x := a.(type) {
+	case bool, int64, float64, string:
+		return a == b
+	case *Value:
+		y, ok := b.(*Value)
+		return ok && x == y
+	case *Map:
+		y, ok := b.(*Map)
+		return ok && x == y
+	case *Chan:
+		y, ok := b.(*Chan)
+		return ok && x == y
+	case *Closure:
+		y, ok := b.(*Closure)
+		return ok && x == y
+	}
+	return false
 }
 
 func (m *Machine) describe(v Value) string {
